@@ -31,8 +31,8 @@ def run(ctx):
                        'pass-through and ownership rules on PublicInference.estimate. Exhaustive over the source.')
     ctx.rule_text = 'one obligation per exp site, per return, per assignment of the returned iterate, per store rooted at public_data'
     ctx.trusted = ['np.exp / logsumexp; exp(b - lse(b) + log T) sums to T']
-    emd = repo.func(PI, 'entropic_mirror_descent')
-    est = repo.func(PI, 'PublicInference.estimate')
+    emd = repo.nfunc(PI, 'entropic_mirror_descent')
+    est = repo.nfunc(PI, 'PublicInference.estimate')
     total = emd.params[2] if len(emd.params) >= 3 else None
     if total is None:
         raise AnalysisError('entropic_mirror_descent lost its total parameter')
@@ -68,7 +68,7 @@ def run(ctx):
     check_estimate(ctx, est, emd)
     check_unmodified(ctx)
     from .C04 import check_loss
-    check_loss(ctx, repo.func(PI, 'PublicInference._marginal_loss'))
+    check_loss(ctx, repo.nfunc(PI, 'PublicInference._marginal_loss'))
     check_weight_gradient(ctx, est)
 
 
@@ -172,7 +172,7 @@ def check_estimate(ctx, est, emd):
 
 def check_unmodified(ctx):
     n = 0
-    for name, fi in ctx.repo.methods(PI, 'PublicInference').items():
+    for name, fi in ctx.repo.nmethods(PI, 'PublicInference').items():
         ctx.analysed(fi)
         for s in ast.walk(fi.node):
             tgts = []
@@ -193,7 +193,7 @@ def check_unmodified(ctx):
                 inplace = any(k.arg == 'inplace' and isinstance(k.value, ast.Constant) and k.value.value for k in s.keywords)
                 if inplace or s.func.attr in ('insert', 'pop', 'update', '__setitem__', 'append', 'extend'):
                     ctx.ob('public-data-unmodified', fi, s, False, 'mutating call on the public dataset: `%s`' % U(s)[:80])
-    init = ctx.repo.func(PI, 'PublicInference.__init__')
+    init = ctx.repo.nfunc(PI, 'PublicInference.__init__')
     ok = any(isinstance(s, ast.Assign) and U(s.targets[0]) == 'self.public_data' and U(s.value) == init.params[1]
              for s in ast.walk(init.node))
     ctx.ob('public-data-unmodified', init, init.node, ok, 'constructor keeps the caller\'s public dataset object as is',
